@@ -189,13 +189,11 @@ theorem unplanStops_root {s : CState} {u : Nat} {ok : Bool}
       else
         ({ onRoute := s.onRoute, planned := add (rem s.planned u) u,
            unplanned := rem (add s.unplanned u) u, fixedC := s.fixedC }, false) := by
-  simp only [unplanStops, isPlanned, isFixed, hr, hk]
-  split
-  · rfl
-  · cases ok <;> simp
+  simp only [unplanStops, isPlanned, isFixed, hr, hk, Option.getD_none, Bool.or_assoc, Bool.or_self]
 
 /-- What is known of the members of a plan-all unit `p` that is not fixed. -/
 def MemberInfo (U : Units) (p : Nat) (members : List Nat) : Prop :=
+  isFixed U p = false ∧
   ∀ m ∈ members, parentOf U m = some p ∧ kindOf U m = .stops ∧ U.fixed.getD m false = false
 
 theorem execStops_member {s : CState} {p m : Nat} {ok : Bool} {members : List Nat}
@@ -204,7 +202,7 @@ theorem execStops_member {s : CState} {p m : Nat} {ok : Bool} {members : List Na
       if s.onRoute.contains m then (s, false)
       else if ok then ({ s with onRoute := add s.onRoute m }, true)
       else (s, false) := by
-  obtain ⟨h1, h2, h3⟩ := hi m hm
+  obtain ⟨h1, h2, h3⟩ := hi.2 m hm
   simp only [execStops, isPlanned, isFixed, h1, h2, h3]
   split
   · simp_all
@@ -216,8 +214,10 @@ theorem unplanStops_member {s : CState} {p m : Nat} {members : List Nat}
       if !(s.onRoute.contains m) then (s, false)
       else ({ onRoute := rem s.onRoute m, planned := rem s.planned p,
               unplanned := add s.unplanned p, fixedC := s.fixedC }, true) := by
-  obtain ⟨h1, h2, h3⟩ := hi m hm
-  simp only [unplanStops, isPlanned, isFixed, h1, h2, h3]
+  obtain ⟨h1, h2, h3⟩ := hi.2 m hm
+  have h4 := hi.1
+  simp only [unplanStops, h1, Option.getD_some, h4, Bool.or_false]
+  simp only [isPlanned, isFixed, h2, h3]
   split
   · simp_all
   · simp_all
@@ -349,7 +349,7 @@ theorem unplanMembersGiven_spec {s0 : CState} {p : Nat} {members : List Nat}
     obtain ⟨n1, n2, n3, n4⟩ := hn
     have hnd' := List.nodup_cons.mp hnd
     have hip : isPlanned U s m = s.onRoute.contains m := by
-      simp only [isPlanned, (hi m hmm).2.1]
+      simp only [isPlanned, (hi.2 m hmm).2.1]
     simp only [unplanMembersGiven, hip, hb1, unplanStops_member hi hmm]
     by_cases hc : s.onRoute.contains m = true
     · simp only [hc, if_true, Bool.not_true, Bool.false_eq_true, if_false]
@@ -381,7 +381,7 @@ theorem unplanMembers_eq_given {p : Nat} {members : List Nat} (hi : MemberInfo U
     have hmm : m ∈ members := hsub m (by simp)
     obtain ⟨hb1, hb2⟩ := headD_of_all hb
     have hip : isPlanned U s m = s.onRoute.contains m := by
-      simp only [isPlanned, (hi m hmm).2.1]
+      simp only [isPlanned, (hi.2 m hmm).2.1]
     simp only [unplanMembers, unplanMembersGiven, hip, hb1, unplanStops_member hi hmm]
     by_cases hc : s.onRoute.contains m = true
     · simp only [hc, if_true, Bool.not_true, Bool.false_eq_true, if_false]
@@ -481,6 +481,7 @@ theorem step_unplanStops {s : CState} {u : Nat} {ok : Bool} (hU : WFUnits U = tr
 
 theorem memberInfo_of (hU : WFUnits U = true) {p : Nat} {members : List Nat}
     (hk : kindOf U p = .all members) (hf : isFixed U p = false) : MemberInfo U p members := by
+  refine ⟨hf, ?_⟩
   intro m hm
   obtain ⟨_, _, h3⟩ := wf_all hU hk
   obtain ⟨_, h5, h6⟩ := h3 m hm
@@ -534,7 +535,7 @@ theorem step_execUnits {s : CState} {p : Nat} {ms : List (Nat × Bool)} {undo : 
       have hpu : p ∈ s.unplanned := (h0.cover p hlt hpr).resolve_left hpp
       have hoff : ∀ m ∈ members, m ∉ s.onRoute := by
         intro m hm hon
-        exact hpp (h0.orMem m p hon (hi m hm).1)
+        exact hpp (h0.orMem m p hon (hi.2 m hm).1)
       have hsp := execMembers_spec hi hmn hpp hpu hoff hundo (mo :: rest) []
         { s with unplanned := rem s.unplanned p, planned := add s.planned p }
         (by simpa using hperm) hn1 (by simp) (fun x => mem_add) (fun x => mem_rem)
